@@ -291,6 +291,28 @@ func (g *gctx) sigECDSA(k *keyT, scriptCode []byte, sv int) []byte {
 	if g.m("high-s") {
 		lowS = false
 	}
+	if g.m("sig-hashtype-is-last-s-byte") {
+		// search a (hash type, nonce) pair for which the last byte of S equals the hash type, and send
+		// DER(r,s) WITHOUT a hash-type byte: a parser that reads S up to the end of the whole signature
+		// and takes the last byte as hash type as well sees a complete valid signature
+		for h := 0; h < 256; h++ {
+			ht2 := byte((h + g.arg) & 0xff)
+			var dg [32]byte
+			if sv == 1 {
+				dg = refsighash.WitnessV0(tx, scriptCode, amount, idx, uint32(ht2))
+			} else {
+				dg = refsighash.Legacy(tx, scriptCode, idx, uint32(ht2))
+			}
+			for ni := 0; ni < nNonces; ni++ {
+				r2, s2 := ecdsaSign(d, dg[:], ni, true)
+				sb := s2.Bytes()
+				if len(sb) == 32 && sb[31] == ht2 {
+					g.note = append(g.note, fmt.Sprintf("hashtype-byte-shared-with-s:%02x", ht2))
+					return encodeDER(r2, s2, "strict", 0)
+				}
+			}
+		}
+	}
 	r, s := ecdsaSign(d, digest[:], g.r.Intn(nNonces), lowS)
 	if g.m("s-plus-n") { // s >= n, same residue
 		s = new(big.Int).Add(s, refec.N)
@@ -641,6 +663,9 @@ func (g *gctx) makeInner(kind string, witness bool) inner {
 		// that makes CHECKSIG push false or abort the script is what the flags decide
 		k := g.key()
 		mode := badSigModes[r.Intn(len(badSigModes))]
+		if g.m("badsig-mode") {
+			mode = badSigModes[g.arg%len(badSigModes)]
+		}
 		marg := r.Intn(mode.args)
 		scr := cat(push(g.pubForm(k, allowUnc)), []byte{refscript.OP_CHECKSIG, refscript.OP_NOT})
 		return inner{kind + ":" + mode.name, scr, func(sign func(*keyT, int) []byte) [][]byte {
@@ -1430,6 +1455,9 @@ func (g *gctx) buildP2TRScript(kind string) *spend {
 		// units of the budget 50 + serialized witness size. The annex length tunes the budget to
 		// exactly delta units above/below what is needed.
 		reps := 8 + r.Intn(30)
+		if depth > 2 {
+			depth = r.Intn(3) // keep the control block small so that the annex can tune the budget
+		}
 		key33 := cat([]byte{2}, r.Bytes(32))
 		for i := 0; i < reps; i++ {
 			script = cat(script, []byte{refscript.OP_DUP}, push(key33), []byte{refscript.OP_CHECKSIGVERIFY})
